@@ -9,6 +9,7 @@
 
    Output records (parsed by tools/props/C19.py):
      B <idx> <alloc> <consume> size=<n> align=<a>            about to run pair <idx> (crash witness)
+     C <name>                                                about to run a return-value check (crash witness)
      T alloc <alloc> size= align= ok=<0|1> why=<token>       checks on the pointer an entry point returned
      T pair <alloc> <consume> size= align= ok=<0|1> why=     cross release / resize / query
      T code <name> ok=<0|1> got=<..> want=<..>               documented return values / errno
@@ -77,6 +78,9 @@ static int probes_init(void) {
 }
 
 static size_t page_size(void) { return (size_t)sysconf(_SC_PAGESIZE); }
+
+/* announce a return-value check that may kill the process (crash witness, like B for pairs) */
+static void checkpoint(const char* name) { printf("C %s\n", name); }
 
 static void code(const char* name, int ok, long long got, long long want) {
   if (!ok) n_fail++;
